@@ -17,6 +17,8 @@ from . import schema_common as sc
 
 from .c15 import cast_doc, cross_cast
 
+from ..pathterms import Prim
+
 PROP = "C18"
 IMPORTS = sc.IMPORTS
 THEOREMS = ["C18_frame", "C18_history", "C18_rules", "C18_concat", "C18_judgement", "C18_rebinding_refuted"]
@@ -53,6 +55,10 @@ def run(tier, seed, model_ok, spec_ok, replay=None):
             S2 = v.Schema([r.build() for r in s_terms])
             Tm = v.Schema([r.build() for r in t_terms])
             roots_b = [r.build() for r in roots]
+            for k_, r_ in enumerate(roots):
+                # a root of one string key may also be given as the bare string (it is joined with `/`, never split into characters)
+                if len(r_.parts) == 1 and isinstance(r_.parts[0], Prim) and isinstance(r_.parts[0].v, str) and not r_.mods and g.r.random() < 0.4:
+                    roots_b[k_] = r_.parts[0].v
         except Exception:
             continue
         t_before = snap_schema(Tm)
